@@ -12,6 +12,7 @@ RULE = ("seeded runs of the real uploader/downloader on a simulated grid: k<=N<=
         "sizes concentrated on 0/55/56, segment and k boundaries; delivery order of every server answer drawn per message (uniform/heavy-tailed/FIFO latency), "
         "write-batch size, read chunk size, share-layout version, overdue timer and finder parallelism randomised per run; reads through a fresh client; "
         "non-trivial = an upload completed and a read/oracle ran; distinct = (probe counts, k, n, size) fingerprint")
+RULE += "; plus 'tight' placements (exactly k distinct shares, only delays as faults), follow-up reads on the same node, servers that go bad for good from the n-th call ('every' faults), directed late-then-break scenarios (spare shares located while the node is idle), reader segment-size guess knob"
 TECHNIQUE = "deterministic simulation: seeded schedules over a simulated network/reactor, byte-exact and independent-decoder oracles"
 LEVEL_TEXT = "seeded search over inputs, configurations and delivery schedules; sampling, not enumeration"
 LEVEL_NOTE = ("real: allmydata.client._Client, Uploader/Encoder/Tahoe2ServerSelector, downloader, StorageFarmBroker/NativeStorageServer, StorageServer; "
